@@ -141,7 +141,9 @@ func C19(h ProxyHooks) func(*hx.Ctx) *hx.Outcome {
 		if c.Detail {
 			o.Sample.(map[string]any)["message_log_disk"] = disk.Describe()
 		}
+		preStart := nearMidnight(t, o)
 		verdict := s.Run(func() {
+			preStart()
 			h.Setup(c.TempDir())
 			empty = angle(h.EmptyStatus())
 			// each peer reads and writes concurrently, as a TCP application must
